@@ -238,6 +238,36 @@ def run(ctx):
             r4.check(fld in written and (fld in reads or fld in callee_reads), "state:" + fld, "%s is written by SET and read by SHOW" % fld,
                      "%s: written=%s read=%s" % (fld, fld in written, fld in reads or fld in callee_reads))
 
+    # the commands are recognised case-insensitively ((?i), R1), so the captured keyword must be compared case-insensitively too:
+    # otherwise `SET PRIMARY READS TO ON` is recognised, acknowledged - and ignored. Sibling arms must agree (SET SERVER ROLE folds).
+    if tec:
+        ncmp = 0
+        for c in tec.calls("re:PartialEq.*::eq$", "re:PartialEq.*::ne$"):
+            lit = None
+            other = None
+            for k_, a in enumerate(c.args[:2]):
+                cst = op_const(a)
+                sv = cst.get("str") if isinstance(cst, dict) else None
+                if sv is None:
+                    for o in origins(tec, a):
+                        if o.kind == "const" and isinstance(o.what, str):
+                            sv = o.what
+                if sv is not None and re.fullmatch(r"[A-Za-z_]+", sv):
+                    lit, other = sv, c.args[1 - k_]
+            if lit is None or other is None:
+                continue
+            tainted = {o.call.name.split("::")[-1] for o in origins(tec, other, taint=True) if o.kind == "call"}
+            if not ({"captures", "as_str"} & tainted):
+                continue
+            ncmp += 1
+            direct = {o.call.name.split("::")[-1] for o in origins(tec, other) if o.kind == "call"}
+            folded_l = bool(direct & {"to_ascii_lowercase", "to_lowercase"})
+            folded_u = bool(direct & {"to_ascii_uppercase", "to_uppercase"})
+            okf = (folded_l and lit == lit.lower()) or (folded_u and lit == lit.upper())
+            r4.check(okf, "keyword-compared-folded:%s" % lit, "captured keyword is case-folded before being compared with %r" % lit,
+                     "the keyword captured by a case-insensitive command regex is compared with %r as written: `... TO %s` is recognised and acknowledged but has no effect (SHOW keeps the old value)" % (lit, lit.upper()), c.where())
+        r4.check(ncmp >= 6, "keyword-comparisons", "%d comparisons of a captured keyword with a literal" % ncmp, "expected >= 6 keyword comparisons in try_execute_command, found %d" % ncmp)
+
     # a refused command establishes nothing: SHOW keeps reporting what the last accepted SET established
     from common import set_shard_refusal_findings
     for key, ok, okmsg, failmsg in set_shard_refusal_findings(F):
